@@ -596,6 +596,7 @@ class Explorer:
         self.max_decisions = max_decisions
         self.max_paths = max_paths
         self.stats = {"solver_calls": 0, "paths": 0, "aborted": 0}
+        self.unsupported = []
 
     def schedule(self, prefix):
         self.work.append(list(prefix))
@@ -614,6 +615,16 @@ class Explorer:
                 out = body(p)
             except PathAbort:
                 self.stats["aborted"] += 1
+                results.append((p, None))
+                continue
+            except Unsupported as u:
+                # this path left the verified subset: remembered (the run is then not a proof), but the
+                # other paths are still explored - a refutation found there stands on its own
+                if len(self.unsupported) < 50:
+                    self.unsupported.append(u)
+                self.stats["unsupported_paths"] = self.stats.get("unsupported_paths", 0) + 1
+                if self.stats["unsupported_paths"] > 2000:
+                    raise
                 results.append((p, None))
                 continue
             results.append((p, out))
